@@ -354,7 +354,14 @@ func checkUnify(c *UnifyCase) *Outcome {
 			m2 := map[string]*types.Type{}
 			r2, pn2 := guardUnify(y, x, m2)
 			if pn2 != nil {
-				return bad("Unify(y,x) panicked: %v", pn2)
+				// as above: where no instantiation exists, the map constructor's refusal of a
+				// non-primitive key is a way of not succeeding
+				if !wantM && strings.Contains(fmt.Sprint(pn2), "invalid type of map's key") {
+					classes = append(classes, "key-refusal-without-instantiation")
+					r2 = nil
+				} else {
+					return bad("Unify(y,x) panicked: %v", pn2)
+				}
 			}
 			if (r2 != nil) != wantM {
 				return bad("ground %s against pattern %s: Unify success=%v, instantiation exists=%v", Y, X, r2 != nil, wantM)
